@@ -39,7 +39,7 @@ def clean_pass(rng, thorough, k):
     n = len(nums)
     offs = timesgen.ideal_offsets(fmt, nums)
     year = rng.choice([1996, 1999, 2000, 2003, 2004, 2008, 2015]) if FMT[fmt]["family"] == "klm" else \
-        rng.choice([1981, 1992, 1996, 1999, 2000, 2003, 2004])
+        rng.choice([1978, 1978, 1979, 1981, 1992, 1996, 1999, 2000, 2003, 2004])      # from the first weeks of TIROS-N on
     if rng.random() < 0.4 and n > 10:
         c = rng.randint(1, n - 1)
         midnight = ydm_to_ms(year, rng.randint(2, 365), 0)
